@@ -22,7 +22,8 @@ Reason(e) ==
             ELSE "ok"
   ELSE IF e.out.kind = "panic" THEN "panic"
   ELSE IF e.out.kind # "ok" THEN (IF e.k = "sanitize" /\ e.call.kind = "preset" THEN "function-error" ELSE "function-error")
-  ELSE IF e.k = "sanitize" THEN (IF SanitizeOk(e.value, e.call, e.out.s) THEN "ok" ELSE "sanitize-contract")
+  ELSE IF e.k = "sanitize" THEN (IF ~SanitizeOk(e.value, e.call, e.out.s) THEN "sanitize-contract"
+                                  ELSE IF NoSepDeviates(e.value, e.call, e.out.s) THEN "X-sanitize-without-separator" ELSE "ok")
   ELSE IF e.k = "hash" THEN
        (IF e.len = 0 THEN (IF e.out.s = <<>> THEN "ok" ELSE "hash-length")
         ELSE IF HashOk(e.len, e.out.s) /\ e.again = e.out THEN "ok" ELSE "hash-contract")
